@@ -147,6 +147,12 @@ def run_case(ck, desc):
     vals = [hv[k] for k in ks]
     if any(b <= a for a, b in zip(vals, vals[1:])):
         ck.violation("strictly-increasing", {"route": "quadrature", "p": [P[k] for k in ks], "m": vals}, desc)
+    # typed pressures: an integer or float32 pressure gives the same integral
+    k0 = ks[len(ks) // 2]
+    for typed in (int(P[k0]), np.int64(P[k0]), np.float32(P[k0])):
+        hv_t = float(pseudopressure_Hussainy(T, typed, Tpc, ppc, sg))
+        if not ck.margin("quadrature route: typed pressure", abs(hv_t - hv[k0]) / abs(hv[k0]), 1e-7):
+            ck.violation("quadrature-typed-pressure", {"p": float(P[k0]), "typed_as": type(typed).__name__, "m": hv_t, "m_float": hv[k0]}, desc)
     # additivity over adjacent intervals, through the reference-pressure argument
     a, b, c = sorted(P[[int(picks[12] * (n - 1)), int(picks[13] * (n - 1)), int(picks[14] * (n - 1))]])
     if a < b < c:
